@@ -368,11 +368,163 @@ void h_cgc(void)
 """)
 
 
+# ---- ScintillationGenerator::operator() --------------------------------------
+class QuotientToUF:
+    """`<numerator regex> / ( ... )` (balanced) -> DIV(numerator, (...))."""
+
+    def __init__(self, num, fn="DIV", fires="+", note="quotient -> uninterpreted with the sign lemma"):
+        self.num, self.fn, self.fires, self.note = num, fn, fires, note
+        self.pat = "quotient[%s]" % num
+
+    def apply(self, text, report, where):
+        from vkit.extract import match_close
+        n = 0
+        pos = 0
+        while True:
+            m = re.compile(r"(%s)\s*/\s*\(" % self.num).search(text, pos)
+            if not m:
+                break
+            o = m.end() - 1
+            e = match_close(text, o, "(", ")")
+            rep = "%s(%s, %s)" % (self.fn, m.group(1), text[o:e + 1])
+            text = text[:m.start()] + rep + text[e + 1:]
+            pos = m.start() + len(rep)
+            n += 1
+        if self.fires == "+" and n == 0:
+            raise ExtractionDrift("rule %s fired 0 times in %s, expected +" % (self.pat, where))
+        report.append({"where": where, "rule": self.pat, "fires": n, "expected": self.fires, "note": self.note})
+        return text
+
+
+SG_MODEL = """
+typedef struct { real_type lambda_mean, lambda_sigma, rise_time, fall_time; } ScintRecord;
+typedef struct { real_type mean_, stddev_; } NormalDist;       /* NormalDistribution: parameters (spare-value handling: c15_normal_*) */
+typedef struct { real_type lambda_; } ExponentialDist;
+typedef struct { GeneratorDistributionData const* dist_; UniformRealDist sample_cost_, sample_phi_; NormalDist sample_lambda_; bool is_neutral_; real_type delta_speed_; Real3 delta_pos_; } ScintillationGenerator;
+ScintRecord g_comp;       /* ghost: the component record the selector picks: any VALID record of the material (ScintRecord::operator bool) */
+real_type g_lambda;       /* ghost: the wavelength handed to wavelength_to_energy */
+real_type __CPROVER_uninterpreted_nvto(real_type);
+real_type __CPROVER_uninterpreted_expm1(real_type);
+Dir3 __CPROVER_uninterpreted_scint_pol(real_type, real_type, real_type);
+#define HC 1.0      /* h_planck * c_light: a positive constant (its value is irrelevant to what is decided) */
+static ScintRecord SELECT_component(ScintillationGenerator const* self, Engine* rng) { ++g_draws; return g_comp; }
+static void NORMAL_assign(NormalDist* d, real_type mean, real_type stddev)
+{
+    __CPROVER_assert(stddev > 0, "celer_expect: NormalDistribution stddev > 0");
+    d->mean_ = mean; d->stddev_ = stddev;
+}
+/* NormalDistribution::operator(): ANY finite value -- the normal distribution has unbounded support (Box-Muller reaches |z| ~ 8.6 with 53-bit uniforms) */
+real_type NORMAL_sample(NormalDist* d, Engine* rng) __CPROVER_requires(d != 0) __CPROVER_assigns(g_draws) __CPROVER_ensures(FINV(__CPROVER_return_value));
+/* ExponentialDistribution(lambda)(rng) = -log(u) / lambda: non-negative for lambda > 0 (support not decided here: assumed) */
+real_type EXP_sample(ExponentialDist const* d, Engine* rng) __CPROVER_requires(d != 0 && d->lambda_ > 0) __CPROVER_assigns(g_draws) __CPROVER_ensures(__CPROVER_return_value >= 0);
+static UniformRealDist const URD_default = {0, 1};
+/* native_value_to<MevEnergy>: division by a positive unit constant -- sign preserving; no over/underflow inside 1e-200 .. 1e200 */
+static real_type NVTO(real_type x)
+{
+    real_type r = __CPROVER_uninterpreted_nvto(x);
+    __CPROVER_assume(!(x >= 0) || r >= 0);
+    __CPROVER_assume(!(x >= 1e-200 && x <= 1e200) || (r > 0 && FINV(r)));
+    return r;
+}
+#define EXPM1(x) __CPROVER_uninterpreted_expm1(x)
+/* a / b for finite a > 0, b > 0: positive unless it underflows, finite unless it overflows -- neither for 1e-150 <= a, b <= 1e150 */
+static real_type DIVP(real_type a, real_type b)
+{
+    real_type r = DIV(a, b);
+    __CPROVER_assume(!(a >= 1e-150 && a <= 1e150 && b >= 1e-150 && b <= 1e150) || (r >= 1e-200 && r <= 1e200));      /* |log10| <= 300 */
+    return r;
+}
+"""
+OU = O + "detail/OpticalUtils.hh"
+MEMBERS_SG = Rule(r"(?<![\w.>])(dist_|shared_|sample_cost_|sample_phi_|sample_lambda_|is_neutral_|delta_speed_|delta_pos_)\b", r"self->\1", "+", note="data members -> self->")
+TIME_QUOT = QuotientToUF(r"MUL\(u, dist_->step_length\)", note="time quotient -> uninterpreted with the sign lemma")
+SG_RULES = COMMON_RULES + [
+    Rule(r"ScintRecord const& component = \[&\] \{.*?\}\(\);", "ScintRecord const component = SELECT_component(self, rng);", 1, flags=16,
+         note="component selection lambda (Selector over the material's yield pdf: c15_selector) -> ghost: any valid record; NOT decided here"),
+    Rule(r"photon\.polarization = \[&\] \{.*?\}\(\);", "photon.polarization = __CPROVER_uninterpreted_scint_pol(cost, phi, URD_sample(&URD_default, rng));", 1, flags=16,
+         note="polarisation lambda (3-vector trigonometry) -> uninterpreted function of (cost, phi, one draw); perpendicularity NOT decided"),
+    Rule(r"sample_lambda_\s*=\s*NormalDistribution\{([^{}]*)\};", r"NORMAL_assign(&sample_lambda_, \1);", 1, note="distribution assignment"),
+    Rule(r"ExponentialDist sample_time\(real_type\{1\} / component\.fall_time\);", "ExponentialDist const sample_time = {DIVP(1, component.fall_time)};", 1, note="ExponentialDistribution(lambda): lambda = 1 / fall_time"),
+    Rule(r"real_type (\w+)\{\};", r"real_type \1 = 0;", "*", note="value initialisation"),
+    Rule(r"sample_time\(rng\)", "EXP_sample(&sample_time, rng)", "+", note="distribution call -> contract"),
+    Rule(r"sample_lambda_\(rng\)", "NORMAL_sample(&sample_lambda_, rng)", "+", note="distribution call -> contract (any finite value)"),
+    Rule(r"sample_(cost|phi)_\(rng\)", r"URD_sample(&sample_\1_, rng)", "+", note="distribution call -> contract"),
+    Rule(r"UniformRealDist\{\}\(rng\)", "URD_sample(&URD_default, rng)", "*", note="default UniformRealDistribution: [0, 1)"),
+    Rule(r"RejectionSampler\(([^()]*)\)\(rng\)", r"REJ_sample(\1, 1, rng)", "+", note="RejectionSampler temporary -> stub (any outcome)"),
+    Rule(r"-std::expm1\(-scint_time / component\.rise_time\)", "-EXPM1(DIV(-scint_time, component.rise_time))", (0, 1), note="expm1 and its argument -> uninterpreted"),
+    MulToUF("MUL", note="products -> uninterpreted with assumed IEEE sign / monotonicity lemmas"),
+    TIME_QUOT,
+    MEMBERS_SG,
+]
+W2E_RULES = [
+    Rule(r"native_value_to<units::MevEnergy>\(", "NVTO(", 1, note="unit conversion -> uninterpreted"),
+    Rule(r"\(constants::h_planck \* constants::c_light\)\s*/\s*wavelength", "DIVP(HC, wavelength)", 1, note="h c / lambda -> uninterpreted quotient with the sign lemma"),
+]
+SG_INV = """(__CPROVER_rw_ok(self, sizeof(*self)) && __CPROVER_r_ok(self->dist_, sizeof(*self->dist_))
+  && self->sample_cost_.a_ == -1 && self->sample_cost_.delta_ == 2
+  && FINV(self->sample_phi_.a_) && self->sample_phi_.delta_ >= 0 && FINV(self->sample_phi_.a_ + self->sample_phi_.delta_)
+  && self->dist_->points[SP_pre].speed > 0 && self->dist_->points[SP_pre].speed <= 1 && self->delta_speed_ >= -self->dist_->points[SP_pre].speed && self->delta_speed_ <= 1
+  && self->dist_->step_length > 0 && FINV(self->dist_->step_length) && FINV(self->dist_->time))"""
+
+
+def sg_loops(n_rej):
+    return LoopContracts(["    __CPROVER_assigns(wavelength, g_draws)\n    __CPROVER_loop_invariant(1)\n"] * n_rej + [
+        "    __CPROVER_assigns(scint_time, target, g_draws)\n    __CPROVER_loop_invariant(1)\n"])
+
+
+def build_scint_call(ctx):
+    w2e = ctx.func(OU, r"^wavelength_to_energy\(real_type wavelength\)", W2E_RULES, name="detail::wavelength_to_energy")
+    text = ctx.read(SG)
+    m = re.search(r"TrackInitializer ScintillationGenerator::operator\(\)\(Generator& rng\)\n\{.*?\n\}\n", text, flags=re.S)
+    n_do = len(re.findall(r"\bdo\b", re.sub(r"//[^\n]*", "", m.group(0)))) if m else 0
+    if n_do < 1:
+        raise ExtractionDrift("ScintillationGenerator::operator() has no rejection loop")
+    pc = ctx.func(SG, r"^CELER_FUNCTION TrackInitializer ScintillationGenerator::operator\(\)\(Generator& rng\)", SG_RULES + [sg_loops(n_do - 1)], name="ScintillationGenerator::operator()")
+    return (HDR + MODEL + AXPY_CONTRACT + ";\n" + SG_MODEL + """
+static real_type wavelength_to_energy(real_type wavelength)
+{ g_lambda = wavelength;
+""" + w2e.body + """}
+void SG_call(ScintillationGenerator* self, Engine* rng, TrackInitializer* out)
+__CPROVER_requires(""" + SG_INV + """ && __CPROVER_w_ok(out, sizeof(*out)) && g_fs_n == 0 && g_vpre == self->dist_->points[SP_pre].speed)
+/* the selected component is a valid record (ScintRecord::operator bool) with wavelengths and times in a range where h c / lambda and 1 / fall_time neither overflow nor underflow */
+__CPROVER_requires(g_comp.lambda_mean > 0 && g_comp.lambda_sigma > 0 && g_comp.rise_time >= 0 && g_comp.fall_time > 0 && g_comp.fall_time >= 1e-150 && g_comp.fall_time <= 1e150 && FINV(g_comp.lambda_mean) && FINV(g_comp.lambda_sigma) && FINV(g_comp.rise_time))
+__CPROVER_assigns(g_draws, g_frac, g_lambda, g_fs_n, __CPROVER_object_whole(g_fs_cost), __CPROVER_object_whole(g_fs_phi), __CPROVER_object_whole(out), self->sample_lambda_)
+/* energy: h c / lambda of a POSITIVE wavelength -- positive and finite (for a wavelength that does not over/underflow the quotient) */
+__CPROVER_ensures(g_lambda > 0 && out->energy >= 0)
+__CPROVER_ensures((g_lambda >= 1e-150 && g_lambda <= 1e150) ==> (out->energy > 0 && FINV(out->energy) && EQV(out->energy, __CPROVER_uninterpreted_nvto(__CPROVER_uninterpreted_div(HC, g_lambda)))))
+/* direction: from_spherical of a polar cosine in [-1, 1] (isotropic) */
+__CPROVER_ensures(g_fs_n == 1 && g_fs_cost[0] >= -1 && g_fs_cost[0] <= 1 && EQV(out->direction, __CPROVER_uninterpreted_from_spherical(g_fs_cost[0], g_fs_phi[0])))
+/* position: pre + u * (post - pre), u in [0, 1]; the end point (u = 1) for a neutral parent */
+__CPROVER_ensures(g_frac >= 0 && g_frac <= 1 && (self->is_neutral_ ==> g_frac == 1))
+__CPROVER_ensures(EQV(out->position.v[0], FMA(g_frac, self->delta_pos_.v[0], self->dist_->points[SP_pre].pos.v[0]))
+               && EQV(out->position.v[1], FMA(g_frac, self->delta_pos_.v[1], self->dist_->points[SP_pre].pos.v[1]))
+               && EQV(out->position.v[2], FMA(g_frac, self->delta_pos_.v[2], self->dist_->points[SP_pre].pos.v[2])))
+/* time: not earlier than the parent's pre-step time */
+__CPROVER_ensures(out->time >= self->dist_->time)
+{""" + pc.body + """}
+void h_sg(void)
+{
+    ScintillationGenerator g; GeneratorDistributionData d; Engine* e; TrackInitializer out;
+    g.dist_ = &d; g_fs_n = 0; g_vpre = d.points[SP_pre].speed;
+    SG_call(&g, e, &out);
+    VERIF_CANARY();
+}
+""")
+
+
 UNITS = [
     Unit("c20_axpy", build_axpy, "h_axpy", enforce="AXPY", unwind=4, timeout=120, backend=["sat"],
          must_have=[r"AXPY.postcondition", r"unwind"], checks=["--bounds-check", "--pointer-check"],
          assumptions=["fma uninterpreted (its value is not decided)"],
          note="axpy<real_type,3>: y[i] <- fma(a, x[i], y[i]) for each of the three components with ONE scale factor (loop fully unwound, N = 3 is a constant: complete)"),
+    Unit("c20_scint_gen_call", build_scint_call, "h_sg", enforce="SG_call", replace=["URD_sample", "REJ_sample", "AXPY", "NORMAL_sample", "EXP_sample"], loop_contracts=True, timeout=600, object_bits=10,
+         backend=["sat", "cvc5", "z3"], must_have=[r"SG_call.postcondition", r"loop_invariant_step", r"from_spherical", r"wavelength > 0", r"AXPY.precondition"],
+         checks=["--bounds-check", "--pointer-check"],
+         assumptions=["component selection: any valid ScintRecord (Selector: c15_selector)", "polarisation lambda uninterpreted: perpendicularity NOT decided", "from_spherical value uninterpreted",
+                      "NormalDistribution: any finite value; ExponentialDistribution: non-negative (assumed)", "IEEE sign / monotonicity lemmas for products, quotients and unit conversions (assumed)",
+                      "termination of the rejection loops not decided"],
+         note="ScintillationGenerator::operator(): energy = h c / lambda of a positive wavelength; isotropic direction argument in [-1,1]; position = pre + u*(post-pre), u in [0,1] (u = 1 for a neutral parent); "
+              "time >= pre-step time on both time-profile branches"),
     Unit("c20_cerenkov_gen_ctor", build_cerenkov_ctor, "h_cgc", enforce="CG_ctor", timeout=600, backend=["sat", "cvc5", "z3"],
          must_have=[r"CG_ctor.postcondition", r"celer_expect", r"celer_assert"], checks=["--bounds-check", "--pointer-check"],
          assumptions=["CerenkovDndxCalculator by its c20_dndx_call contract (finite, non-negative function of charge and speed)", "make_unit_vector uninterpreted",
